@@ -10,8 +10,8 @@ theorem tie_cfg_proved : Proved Nv.Gen.C15.cfg := by decide
 
 /-- `lochash_in_range`, stated on the regenerated `(*WorkerGrp).locHash`: for every value of `k.HashedInt()`
 and every positive `muxSize` the worker index lies in `[0, muxSize)`. -/
-theorem tie_lochash_in_range : LocOk Nv.Gen.C15.loc := by
-  intro s i hs
+theorem tie_lochash_kernel_in_range (s i : BitVec 64) (hs : 0 < s.toInt) :
+    0 ≤ (Nv.Gen.C15.workerGrp_locHash s i).toInt ∧ (Nv.Gen.C15.workerGrp_locHash s i).toInt < s.toInt := by
   have hb := srem_bounds i s hs
   have hn := neg_toInt_of_srem_neg i s hs
   have hr := BitVec.toInt_srem i s
@@ -22,10 +22,17 @@ theorem tie_lochash_in_range : LocOk Nv.Gen.C15.loc := by
     rw [Int.neg_tmod] at this; omega
   have hsp : 0 ≤ i.toInt → 0 ≤ (i.srem s).toInt := by
     intro h; rw [hr]; exact Int.tmod_nonneg _ h
-  unfold Nv.Gen.C15.loc Nv.Gen.C15.workerGrp_locHash
+  unfold Nv.Gen.C15.workerGrp_locHash
   try simp only []
   repeat' split
   all_goals (rename_i hc; simp only [BitVec.slt_iff_toInt_lt, BitVec.toInt_zero, Bool.not_eq_true, decide_eq_true_eq,
     decide_eq_false_iff_not, Int.not_lt] at hc; omega)
+
+/-- … hence for the routing function the model is run with (`locHash ∘ Int.HashedInt`, both regenerated), whatever the
+key type's hash function computes -/
+theorem tie_lochash_in_range : LocOk Nv.Gen.C15.loc := by
+  intro n h hs
+  unfold Nv.Gen.C15.loc
+  exact tie_lochash_kernel_in_range n _ hs
 
 end Nv.C15
